@@ -393,8 +393,11 @@ def _backtrack_line_search(X, y, w, Xw, fit_intercept, datafit, penalty, delta_w
             prev_step = step
             step /= 2
     else:
-        pass
-        # TODO this case is not handled yet
+        # no step in {1, 1/2, ..., 2 ** (1 - MAX_BACKTRACK_ITER)} passes the test:
+        # stay at the starting point instead of keeping the last trial step
+        w[ws_intercept] -= prev_step * delta_w_ws
+        Xw -= prev_step * X_delta_w_ws
+        grad_ws = _construct_grad(X, y, w[:n_features], Xw, datafit, ws)
 
     return grad_ws
 
@@ -432,7 +435,11 @@ def _backtrack_line_search_s(X_data, X_indptr, X_indices, y, w, Xw, fit_intercep
             prev_step = step
             step /= 2
     else:
-        pass  # TODO
+        # no step passes the test: stay at the starting point
+        w[ws_intercept] -= prev_step * delta_w_ws
+        Xw -= prev_step * X_delta_w_ws
+        grad_ws = _construct_grad_sparse(X_data, X_indptr, X_indices,
+                                         y, w[:n_features], Xw, datafit, ws)
 
     return grad_ws
 
